@@ -3,6 +3,7 @@
 -/
 import GqlVerif.Driver.Decode
 import GqlVerif.Driver.Render
+import GqlVerif.Driver.ExtOps
 open Lean Gql Gql.Driver
 
 structure DState where
@@ -32,6 +33,9 @@ def handle (st : DState) (j : Json) : D (DState × Json) := do
       let lines := r.2.map rTraceLine
       pure (st, Json.mkObj [("outcome", "ok"), ("lines", Json.arr (lines.map Json.str).toArray),
         ("final", rSnap r.1.snap)])
+  | "ext" =>
+    let r ← extOp st.schema j
+    pure (st, Json.mkObj [("r", r)])
   | "svisit" =>
     match schemaVisit st.schema with
     | none => pure (st, Json.mkObj [("outcome", "panic")])
